@@ -324,24 +324,42 @@ def rule_scalar_dtype(idx: ProgramIndex, rep: Report):
             scalar_params = {a.arg for a in list(fn.node.args.args)[1:] if a.annotation is not None and "float" in norm(a.annotation)}
             if not scalar_params:
                 continue
+            # the method and the private helpers of self / of the module that it hands the scalar operand to
+            scopes = [(fn, scalar_params)]
             for x in walk_body(fn):
-                if not (isinstance(x, ast.Call) and dotted(x.func) in SCALAR_CONVERTERS and x.args):
-                    continue
-                src = x.args[-1] if dotted(x.func) == "torch.full" and len(x.args) >= 2 else x.args[0]
-                if not (isinstance(src, ast.Name) and src.id in scalar_params):
-                    continue
-                n += 1
-                dt = next((k.value for k in x.keywords if k.arg == "dtype"), None)
-                sample = {"method": f"{c.name}.{m}", "conversion": short(x, 70)}
-                derived = dt is not None and any(isinstance(y, ast.Name) and y.id == "self" for y in ast.walk(dt))
-                if derived:
-                    rep.ok("C02.S2", sample)
-                else:
-                    rep.bad("C02.S2", Finding(
-                        PROP, "C02.S2", f"{c.name}.{m}", norm(x),
-                        f"{c.name}.{m}: `{short(x, 70)}` turns the python-scalar operand `{src.id}` into a tensor "
-                        + ("without dtype=" if dt is None else f"with dtype={norm(dt)}") + ": the constant is rounded to torch's "
-                        "default dtype (float32), so a float64 operator times 0.1 is off by 1e-8 relative", fn.loc(x)), sample)
+                if isinstance(x, ast.Call) and any(isinstance(a_, ast.Name) and a_.id in scalar_params for a_ in x.args):
+                    callee = None
+                    off = 0
+                    if isinstance(x.func, ast.Attribute) and isinstance(x.func.value, ast.Name) and x.func.value.id == "self" \
+                            and x.func.attr.startswith("_"):
+                        callee, off = idx.resolve_method(c, x.func.attr), 1
+                    elif isinstance(x.func, ast.Name) and x.func.id.startswith("_"):
+                        callee = idx.function_of_expr(fn.module, x.func)
+                        off = 0
+                    if callee is not None:
+                        ps = callee.params()[off:]
+                        bound = {ps[i] for i, a_ in enumerate(x.args) if isinstance(a_, ast.Name) and a_.id in scalar_params and i < len(ps)}
+                        if bound:
+                            scopes.append((callee, bound))
+            for (sfn, sparams) in scopes:
+              for x in walk_body(sfn):
+                  if not (isinstance(x, ast.Call) and dotted(x.func) in SCALAR_CONVERTERS and x.args):
+                      continue
+                  src = x.args[-1] if dotted(x.func) == "torch.full" and len(x.args) >= 2 else x.args[0]
+                  if not (isinstance(src, ast.Name) and src.id in sparams):
+                      continue
+                  n += 1
+                  dt = next((k.value for k in x.keywords if k.arg == "dtype"), None)
+                  sample = {"method": f"{c.name}.{m}", "conversion": short(x, 70)}
+                  derived = dt is not None and any(isinstance(y, ast.Name) and y.id == "self" for y in ast.walk(dt))
+                  if derived:
+                      rep.ok("C02.S2", sample)
+                  else:
+                      rep.bad("C02.S2", Finding(
+                          PROP, "C02.S2", f"{c.name}.{m}", norm(x),
+                          f"{c.name}.{m}: `{short(x, 70)}` turns the python-scalar operand `{src.id}` into a tensor "
+                          + ("without dtype=" if dt is None else f"with dtype={norm(dt)}") + ": the constant is rounded to torch's "
+                          "default dtype (float32), so a float64 operator times 0.1 is off by 1e-8 relative", sfn.loc(x)), sample)
     if n < 2:
         rep.error(f"only {n} scalar-operand conversions found in arithmetic methods (expected >= 2)")
 
